@@ -191,7 +191,8 @@ impl Quantity {
 
         // Heuristic 3
         let removed_exponent = |u: &UnitFactor| {
-            let base_unit = u.unit_id.base_unit_and_factor().0;
+            // canonicalized: the definition of a unit may mention a base unit more than once (mpg = m/m^3)
+            let base_unit = u.unit_id.base_unit_and_factor().0.canonicalized();
             if let Some(first_factor) = base_unit.into_iter().next() {
                 first_factor.exponent
             } else {
